@@ -676,66 +676,114 @@ def _expect(rep: Report, fi: FunctionInfo, ev: Events, kind: str, sd: "Side", wa
         rep.violation("C11.R2", key, site, f"on {side} paths `{what}` happens {_fmt(got)} time(s), required {_fmt(want)}: {why}")
 
 
+def _ref_events(fi: FunctionInfo, n: ast.AST, var: str):
+    """event kinds of one AST node of the reference renderer (``var`` = the footnote_reference node)"""
+    if _item_store(n, var, "auto") is not None:
+        yield "auto_attr"
+    v = _item_store(n, var, "refname")
+    if v is not None:
+        yield "refname"
+        yield "refname_label" if _is_label(fi, v) else "refname_other"
+    if _method_call_on_arg(n, "note_autofootnote_ref", var):
+        yield "note_autoref"
+    if _method_call_on_arg(n, "note_footnote_ref", var):
+        yield "note_ref"
+    for other in ("note_footnote", "note_autofootnote", "note_symbol_footnote_ref", "note_citation_ref"):
+        if _method_call_on_arg(n, other, var):
+            yield "wrong_registry"
+    c = _child_added(n, var)
+    if c is not None:
+        if isinstance(c, ast.Call) and fi.module.resolve(dotted(c.func) or "") == "docutils.nodes.Text" and len(c.args) == 1 and _is_label(fi, c.args[0]):
+            yield "text_label"
+        else:
+            yield "other_child"
+
+
+def _def_events(fi: FunctionInfo, n: ast.AST, var: str):
+    """event kinds of one AST node of the definition renderer (``var`` = the footnote node)"""
+    if _item_store(n, var, "auto") is not None:
+        yield "auto_attr"
+    if isinstance(n, ast.Call) and isinstance(n.func, ast.Attribute) and n.func.attr == "append" and len(n.args) == 1:
+        r = n.func.value
+        if isinstance(r, ast.Subscript) and _is_name(r.value, var) and isinstance(r.slice, ast.Constant) and r.slice.value == "names":
+            yield "names"
+            yield "names_label" if _is_label(fi, n.args[0]) else "names_other"
+    v = _item_store(n, var, "names")
+    if v is not None:
+        yield "names"
+        yield "names_label" if isinstance(v, ast.List) and len(v.elts) == 1 and _is_label(fi, v.elts[0]) else "names_other"
+    if _method_call_on_arg(n, "note_footnote", var):
+        yield "note_fn"
+    if _method_call_on_arg(n, "note_autofootnote", var):
+        yield "note_autofn"
+    if _method_call_on_arg(n, "note_explicit_target", var):
+        yield "note_target"
+    for other in ("note_footnote_ref", "note_autofootnote_ref", "note_symbol_footnote", "note_citation", "note_implicit_target"):
+        if _method_call_on_arg(n, other, var):
+            yield "wrong_registry"
+    c = _child_added(n, var)
+    if c is not None:
+        if isinstance(c, ast.Call) and fi.module.resolve(dotted(c.func) or "") == "docutils.nodes.label" and len(c.args) >= 2 and _is_label(fi, c.args[1]):
+            yield "label_child"
+        elif isinstance(c, ast.Call) and fi.module.resolve(dotted(c.func) or "") == "docutils.nodes.label":
+            yield "label_other"
+    if isinstance(n, ast.Call) and isinstance(n.func, ast.Attribute) and n.func.attr == "render_children" and _is_name(n.func.value, "self"):
+        yield "body"
+
+
+def _scan(fi: FunctionInfo, var: str, gen, depth: int = 0) -> Events:
+    """Events of ``fi`` about the node ``var``; a package helper that receives the node is followed:
+    what it does on every one of its paths is charged to the call site (its own order is kept in ``inner``)."""
+    ev = Events(fi)
+    ev.inner = {}
+    for n in fi.local_nodes():
+        for kind in gen(fi, n, var):
+            ev.add(kind, n)
+        if isinstance(n, ast.Call) and any(_is_name(a, var) for a in [*n.args, *[k.value for k in n.keywords]]):
+            if isinstance(n.func, ast.Attribute) and not _is_name(n.func.value, "self"):
+                continue  # a method of another object (document.note_*, list.append ...): judged above
+            h = _resolve_helper(fi, n)
+            if h is None or h.is_lambda:
+                continue
+            if depth >= 2 or h.fq == fi.fq:
+                raise Unsupported(f"{fi.module.site(n)}: helper chain through {h.qualname} too deep")
+            binding = _bind_args(h, n)
+            pvars = [p_ for p_, a in binding.items() if _is_name(a, var)]
+            if len(pvars) != 1:
+                raise Unsupported(f"{fi.module.site(n)}: node passed {len(pvars)} times to {h.qualname}")
+            h.__dict__.setdefault("_c11_label_params", set()).update(p_ for p_, a in binding.items() if _is_label(fi, a))
+            if any(isinstance(x, ast.If) and _is_label_use_in_call(h, x.test) for x in h.local_nodes()) or any(isinstance(x, ast.If) and any(isinstance(c, ast.Call) and _is_label_use_in_call(h, c) for c in ast.walk(x.test)) for x in h.local_nodes()):
+                raise Unsupported(f"{fi.module.site(n)}: helper {h.qualname} branches on the label itself; the manual/auto classification is only followed in the render method")
+            hev = _scan(h, pvars[0], gen, depth + 1)
+            for kind, nodes_ in hev.ev.items():
+                c = hev.count(kind, ENTRY)
+                if len(c) != 1:
+                    raise Unsupported(f"{fi.module.site(n)}: helper {h.qualname} does `{kind}` {_fmt(c)} times depending on its path")
+                for _ in range(c.pop()):
+                    ev.add(kind, n)
+                ev.inner[(kind, id(n))] = (hev, nodes_)
+    return ev
+
+
+def _precedes(ev: Events, kind_a: str, a: ast.AST, kind_b: str, b: ast.AST) -> bool:
+    """event ``a`` happens before event ``b`` on every path that reaches ``b``"""
+    if a is b:
+        ia, ib = ev.inner.get((kind_a, id(a))), ev.inner.get((kind_b, id(b)))
+        if ia is None or ib is None:
+            return False
+        hev = ia[0]
+        return all(any(_precedes(hev, kind_a, x, kind_b, y) for x in ia[1]) for y in ib[1])
+    return ev.cfg.dominates(ev.cfg.stmt_of(a), ev.cfg.stmt_of(b)) and ev.cfg.stmt_of(a) is not ev.cfg.stmt_of(b)
+
+
 def _scan_ref(fi: FunctionInfo) -> tuple[Events, str]:
     var = _node_var(fi, "docutils.nodes.footnote_reference")
-    ev = Events(fi)
-    for n in fi.local_nodes():
-        v = _item_store(n, var, "auto")
-        if v is not None:
-            ev.add("auto_attr", n)
-        v = _item_store(n, var, "refname")
-        if v is not None:
-            ev.add("refname", n)
-            ev.add("refname_label" if _is_label(fi, v) else "refname_other", n)
-        if _method_call_on_arg(n, "note_autofootnote_ref", var):
-            ev.add("note_autoref", n)
-        if _method_call_on_arg(n, "note_footnote_ref", var):
-            ev.add("note_ref", n)
-        for other in ("note_footnote", "note_autofootnote", "note_symbol_footnote_ref", "note_citation_ref"):
-            if _method_call_on_arg(n, other, var):
-                ev.add("wrong_registry", n)
-        c = _child_added(n, var)
-        if c is not None:
-            if isinstance(c, ast.Call) and fi.module.resolve(dotted(c.func) or "") == "docutils.nodes.Text" and len(c.args) == 1 and _is_label(fi, c.args[0]):
-                ev.add("text_label", n)
-            else:
-                ev.add("other_child", n)
-    return ev, var
+    return _scan(fi, var, _ref_events), var
 
 
 def _scan_def(fi: FunctionInfo) -> tuple[Events, str]:
     var = _node_var(fi, "docutils.nodes.footnote")
-    ev = Events(fi)
-    for n in fi.local_nodes():
-        if _item_store(n, var, "auto") is not None:
-            ev.add("auto_attr", n)
-        if isinstance(n, ast.Call) and isinstance(n.func, ast.Attribute) and n.func.attr == "append" and len(n.args) == 1:
-            r = n.func.value
-            if isinstance(r, ast.Subscript) and _is_name(r.value, var) and isinstance(r.slice, ast.Constant) and r.slice.value == "names":
-                ev.add("names", n)
-                ev.add("names_label" if _is_label(fi, n.args[0]) else "names_other", n)
-        v = _item_store(n, var, "names")
-        if v is not None:
-            ev.add("names", n)
-            ev.add("names_label" if isinstance(v, ast.List) and len(v.elts) == 1 and _is_label(fi, v.elts[0]) else "names_other", n)
-        if _method_call_on_arg(n, "note_footnote", var):
-            ev.add("note_fn", n)
-        if _method_call_on_arg(n, "note_autofootnote", var):
-            ev.add("note_autofn", n)
-        if _method_call_on_arg(n, "note_explicit_target", var):
-            ev.add("note_target", n)
-        for other in ("note_footnote_ref", "note_autofootnote_ref", "note_symbol_footnote", "note_citation", "note_implicit_target"):
-            if _method_call_on_arg(n, other, var):
-                ev.add("wrong_registry", n)
-        c = _child_added(n, var)
-        if c is not None:
-            if isinstance(c, ast.Call) and fi.module.resolve(dotted(c.func) or "") == "docutils.nodes.label" and len(c.args) >= 2 and _is_label(fi, c.args[1]):
-                ev.add("label_child", n)
-            elif isinstance(c, ast.Call) and fi.module.resolve(dotted(c.func) or "") == "docutils.nodes.label":
-                ev.add("label_other", n)
-        if isinstance(n, ast.Call) and isinstance(n.func, ast.Attribute) and n.func.attr == "render_children" and _is_name(n.func.value, "self"):
-            ev.add("body", n)
-    return ev, var
+    return _scan(fi, var, _def_events), var
 
 
 @rule("C11.R2")
@@ -771,7 +819,7 @@ def r2_predicate_and_registries(corpus: Corpus, rep: Report, tier: str):
     cfg = get_cfg(ref)
     for nr in ev.nodes("note_ref"):
         key = f"{ref.fq}|refname stored before note_footnote_ref"
-        if any(cfg.dominates(cfg.stmt_of(s), cfg.stmt_of(nr)) for s in ev.nodes("refname")):
+        if any(_precedes(ev, "refname", s, "note_ref", nr) for s in ev.nodes("refname")):
             rep.ok("C11.R2", key, ref.module.site(nr))
         else:
             rep.violation("C11.R2", key, ref.module.site(nr), "note_footnote_ref reads reference['refname']; it is called on a path where refname has not been stored yet")
@@ -796,7 +844,7 @@ def r2_predicate_and_registries(corpus: Corpus, rep: Report, tier: str):
     cfg = get_cfg(dfn)
     for nt in ev.nodes("note_target"):
         key = f"{dfn.fq}|name stored before note_explicit_target"
-        if any(cfg.dominates(cfg.stmt_of(s), cfg.stmt_of(nt)) for s in ev.nodes("names")):
+        if any(_precedes(ev, "names", s, "note_target", nt) for s in ev.nodes("names")):
             rep.ok("C11.R2", key, dfn.module.site(nt))
         else:
             rep.violation("C11.R2", key, dfn.module.site(nt), "note_explicit_target registers footnote['names']; it is called on a path where the label has not been stored in names yet")
@@ -968,6 +1016,11 @@ def r6_duplicate_test_registry_kind(corpus: Corpus, rep: Report, tier: str):
             bad = None
             for b in bodies:
                 bst = ev.cfg.stmt_of(b)
+                shared = [f_ for f_ in ev.nodes(kind) if f_ is b]
+                if shared:
+                    if not _precedes(ev, kind, b, "body", b):
+                        bad = b
+                    continue
                 got = ev.paths(kind, ENTRY, bst, avoid=edge.avoid)
                 if 0 in got:
                     bad = b
@@ -1005,7 +1058,12 @@ def _judge_guards(fi: FunctionInfo, stmt, want: dict[str, bool]) -> tuple[list[s
     problems, desc = [], []
     seen: dict[str, bool] = {}
     for t, pol in cfg.guards(stmt):
+        t = _deref(fi, t) if isinstance(t, ast.Name) else t
+        while isinstance(t, ast.UnaryOp) and isinstance(t.op, ast.Not):
+            t, pol = t.operand, not pol
         sname = _setting_name(t)
+        if sname is None and isinstance(t, ast.Call) and dotted(t.func) == "bool" and len(t.args) == 1:
+            sname = _setting_name(t.args[0])
         if sname is not None:
             seen[sname] = pol
             if sname not in want:
@@ -1024,9 +1082,20 @@ def _judge_guards(fi: FunctionInfo, stmt, want: dict[str, bool]) -> tuple[list[s
     return problems, desc
 
 
-def _collector_parts(fi: FunctionInfo):
-    """Locate the move loop, the gather loop and the transition of CollectFootnotes.apply."""
-    move = None
+class Parts:
+    """The loop that moves the footnotes: ``lfi``/``loop`` where it lives, ``anchor`` the statement of
+    CollectFootnotes.apply that runs it (the loop itself or the call of the helper holding it),
+    ``iter`` the iterated expression as written in apply."""
+
+    def __init__(self, lfi, loop, removes, appends, anchor, iter_):
+        self.lfi, self.loop, self.removes, self.appends, self.anchor, self.iter = lfi, loop, removes, appends, anchor, iter_
+
+    def __iter__(self):  # (loop, removes, appends) for older callers
+        return iter((self.loop, self.removes, self.appends))
+
+
+def _move_loops(fi: FunctionInfo):
+    out = []
     for n in fi.local_nodes():
         if not isinstance(n, ast.For):
             continue
@@ -1042,12 +1111,61 @@ def _collector_parts(fi: FunctionInfo):
             if isinstance(x, ast.Call) and isinstance(x.func, ast.Attribute) and x.func.attr in ("append", "extend") and _is_document(x.func.value) and len(x.args) == 1 and isinstance(x.args[0], ast.Name) and x.args[0].id in names:
                 appends.append(x)
         if removes or appends:
-            if move is not None:
-                raise Unsupported(f"{fi.qualname}: more than one loop moves footnotes")
-            move = (n, removes, appends)
-    if move is None:
-        raise Unsupported(f"{fi.qualname}: no loop that detaches footnotes from their parent and appends them to self.document")
-    return move
+            out.append((n, removes, appends))
+    return out
+
+
+def _helper_calls(fi: FunctionInfo):
+    """[(call, helper)] for the package helpers ``fi`` calls as self.h(...) / h(...)."""
+    out = []
+    for n in fi.local_nodes():
+        if isinstance(n, ast.Call) and ((isinstance(n.func, ast.Attribute) and _is_name(n.func.value, "self")) or isinstance(n.func, ast.Name)):
+            h = _resolve_helper(fi, n)
+            if h is not None and not h.is_lambda and h.fq != fi.fq and h.module is fi.module:
+                out.append((n, h))
+    return out
+
+
+def _collector_parts(fi: FunctionInfo) -> Parts:
+    """Locate the loop that moves the footnotes, in CollectFootnotes.apply or one helper it calls."""
+    here = _move_loops(fi)
+    there = [(call, h, ml) for call, h in _helper_calls(fi) for ml in _move_loops(h)]
+    if len(here) + len(there) > 1:
+        raise Unsupported(f"{fi.qualname}: more than one loop moves footnotes")
+    if here:
+        loop, removes, appends = here[0]
+        return Parts(fi, loop, removes, appends, loop, loop.iter)
+    if there:
+        call, h, (loop, removes, appends) = there[0]
+        cfg = get_cfg(fi)
+        it = loop.iter
+        if isinstance(it, ast.Name) and it.id in h.params:
+            binding = _bind_args(h, call)
+            if it.id not in binding:
+                raise Unsupported(f"{fi.module.site(call)}: {h.qualname} iterates a parameter that the call leaves to its default")
+            it = binding[it.id]
+        elif any(isinstance(x, ast.Name) and x.id in h.params and x.id != "self" for x in ast.walk(it)):
+            hb = _bind_args(h, call)
+            if not (isinstance(it, ast.Call) and dotted(it.func) == "sorted" and it.args and isinstance(it.args[0], ast.Name) and it.args[0].id in hb and isinstance(_deref(fi, hb[it.args[0].id]), (ast.Name, ast.List, ast.ListComp))):
+                raise Unsupported(f"{h.module.site(loop)}: the move loop iterates `{short(it, 50)}`")
+            # sorted(<param>, key=...) inside the helper: the list is the argument of apply
+            it = ast.Call(func=it.func, args=[hb[it.args[0].id], *it.args[1:]], keywords=it.keywords)
+            ast.copy_location(it, loop.iter)
+            ast.fix_missing_locations(it)
+        return Parts(h, loop, removes, appends, cfg.stmt_of(call), it)
+    raise Unsupported(f"{fi.qualname}: no loop that detaches footnotes from their parent and appends them to self.document")
+
+
+def _transition_sites(fi: FunctionInfo):
+    """[(function holding the construction, constructor call, statement of apply that runs it)]"""
+    def ctors(f):
+        return [n for n in f.local_nodes() if isinstance(n, ast.Call) and f.module.resolve(dotted(n.func) or "") == "docutils.nodes.transition"]
+    cfg = get_cfg(fi)
+    out = [(fi, c, cfg.stmt_of(c)) for c in ctors(fi)]
+    for call, h in _helper_calls(fi):
+        for c in ctors(h):
+            out.append((h, c, cfg.stmt_of(call)))
+    return out
 
 
 def _is_registry_view(fi: FunctionInfo, e: ast.expr, reg: str):
@@ -1117,44 +1235,50 @@ def r4_collector(corpus: Corpus, rep: Report, tier: str):
     fi = corpus.func(f"{TRANS}:CollectFootnotes.apply")
     rep.saw_function(fi.fq)
     cfg = get_cfg(fi)
-    loop, removes, appends = _collector_parts(fi)
-    site = fi.module.site(loop)
+    parts = _collector_parts(fi)
+    loop, removes, appends = parts
+    lfi, anchor = parts.lfi, parts.anchor
+    lcfg = get_cfg(lfi)
+    rep.saw_function(lfi.fq)
+    site = lfi.module.site(loop)
 
     # (a) guard
-    problems, desc = _judge_guards(fi, loop, {"myst_footnote_sort": True})
+    problems, desc = _judge_guards(fi, anchor, {"myst_footnote_sort": True})
+    if lfi is not fi:
+        p_in, d_in = _judge_guards(lfi, loop, {})
+        problems += p_in
+        desc += d_in
     key = f"{fi.fq}|move loop|guard"
     if problems:
         rep.violation("C11.R4", key, site, "the loop that moves the footnotes " + "; ".join(problems) + ": with footnote_sort on, all definitions move to the end; with it off, none does")
     else:
         rep.ok("C11.R4", key, site, " and ".join(desc))
     # sort disabled => nothing moved, no transition
-    ev = Events(fi)
+    lev = Events(lfi)
     for x in removes:
-        ev.add("remove", x)
+        lev.add("remove", x)
     for x in appends:
-        ev.add("append", x)
-    trans_ctor = [n for n in fi.local_nodes() if isinstance(n, ast.Call) and fi.module.resolve(dotted(n.func) or "") == "docutils.nodes.transition"]
-    for x in trans_ctor:
-        ev.add("transition", x)
+        lev.add("append", x)
+    tsites = _transition_sites(fi)
 
     # (b) each footnote moved exactly once per iteration, detach before attach
     t_edge = ("T", loop)
-    w_rm, w_ap = ev._weight("remove"), ev._weight("append")
-    c_rm = set(cfg.counts(t_edge, [loop], w_rm).get(loop, set()))
-    c_ap = set(cfg.counts(t_edge, [loop], w_ap).get(loop, set()))
+    w_rm, w_ap = lev._weight("remove"), lev._weight("append")
+    c_rm = set(lcfg.counts(t_edge, [loop], w_rm).get(loop, set()))
+    c_ap = set(lcfg.counts(t_edge, [loop], w_ap).get(loop, set()))
     key = f"{fi.fq}|move loop|detach once, attach once"
     if c_rm == {1} and c_ap == {1}:
         rep.ok("C11.R4", key, site)
     else:
         rep.violation("C11.R4", key, site, f"per iteration the footnote is detached from its parent {_fmt(c_rm)} time(s) and appended to the document {_fmt(c_ap)} time(s); required once each (a footnote must end up in exactly one place)")
     key = f"{fi.fq}|move loop|detach before attach"
-    if removes and appends and all(any(cfg.dominates(cfg.stmt_of(r), cfg.stmt_of(a)) for r in removes) for a in appends):
+    if removes and appends and all(any(lcfg.dominates(lcfg.stmt_of(r), lcfg.stmt_of(a)) for r in removes) for a in appends):
         rep.ok("C11.R4", key, site)
     elif removes and appends:
         rep.violation("C11.R4", key, site, "the footnote is appended to the document before it is detached: `+=` re-parents it, so `footnote.parent.remove(footnote)` then removes it from the document again (a footnote defined inside a section or block quote disappears)")
 
     # (c) iteration order: sorted(<gathered>, key=K), ascending
-    it = loop.iter
+    it = _deref(fi, parts.iter) if isinstance(parts.iter, ast.Name) else parts.iter
     key = f"{fi.fq}|move loop|ascending order"
     if not (isinstance(it, ast.Call) and dotted(it.func) == "sorted" and it.args and kwarg(it, "key") is not None):
         raise Unsupported(f"{site}: the move loop does not iterate over sorted(<list>, key=...)")
@@ -1210,37 +1334,47 @@ def r4_collector(corpus: Corpus, rep: Report, tier: str):
 
     # (e) the transition
     key = f"{fi.fq}|transition|at most one, under myst_footnote_transition, attached to the document before the footnotes"
-    if not trans_ctor:
+    if not tsites:
         rep.listed("C11.R4", key, site, "no transition is built")
     else:
-        c_tr = ev.count("transition", ENTRY)
+        tev = Events(fi)
+        for _tfi, _tc, outer in tsites:
+            tev.add("transition", outer)
+        c_tr = tev.count("transition", ENTRY)
         problems = []
         if not c_tr <= {0, 1}:
             problems.append(f"{_fmt(c_tr)} transitions can be built on one path")
-        for tc in trans_ctor:
-            st = cfg.stmt_of(tc)
-            p2, _ = _judge_guards(fi, st, {"myst_footnote_sort": True, "myst_footnote_transition": True})
+        for tfi, tc, outer in tsites:
+            rep.saw_function(tfi.fq)
+            tcfg = get_cfg(tfi)
+            st = tcfg.stmt_of(tc)
+            p2, _ = _judge_guards(fi, outer, {"myst_footnote_sort": True, "myst_footnote_transition": True})
+            if tfi is not fi:
+                p2 += _judge_guards(tfi, st, {})[0]
+                if any(tcfg.loops.get(st) is not None for _ in (0,)):
+                    problems.append("the transition is built inside a loop")
             problems += [f"the transition {p}" for p in p2]
             # its attachment
             tv = st.targets[0].id if isinstance(st, ast.Assign) and len(st.targets) == 1 and isinstance(st.targets[0], ast.Name) else None
             if tv is None:
-                raise Unsupported(f"{fi.module.site(tc)}: transition not bound to a local")
-            att = [n for n in fi.local_nodes() if (isinstance(n, ast.AugAssign) and _is_name(n.value, tv)) or (isinstance(n, ast.Call) and isinstance(n.func, ast.Attribute) and n.func.attr in ("append", "insert") and any(_is_name(a, tv) for a in n.args))]
+                raise Unsupported(f"{tfi.module.site(tc)}: transition not bound to a local")
+            att = [n for n in tfi.local_nodes() if (isinstance(n, ast.AugAssign) and _is_name(n.value, tv)) or (isinstance(n, ast.Call) and isinstance(n.func, ast.Attribute) and n.func.attr in ("append", "insert") and any(_is_name(a, tv) for a in n.args))]
             if len(att) != 1:
-                raise Unsupported(f"{fi.module.site(tc)}: expected one attachment of the transition, found {len(att)}")
+                raise Unsupported(f"{tfi.module.site(tc)}: expected one attachment of the transition, found {len(att)}")
             a = att[0]
             tgt = a.target if isinstance(a, ast.AugAssign) else a.func.value
             if not _is_document(tgt) or (isinstance(a, ast.Call) and a.func.attr == "insert"):
                 problems.append(f"the transition is attached with `{short(a, 50)}`, not appended to self.document")
-            ast_ = cfg.stmt_of(a)
-            if not cfg.dominates(st, ast_):
+            ast_ = tcfg.stmt_of(a)
+            if not tcfg.dominates(st, ast_):
                 problems.append("the transition is attached on a path that did not build it")
-            if ast_ in cfg.reachable_from(("T", loop)) or not (loop in cfg.reachable_from(ast_)):
+            after = outer in cfg.reachable_from(("T", anchor)) if isinstance(anchor, (ast.For, ast.While)) else (outer in cfg.reachable_from(anchor) and outer is not anchor)
+            if after or outer is anchor or anchor not in cfg.reachable_from(outer):
                 problems.append("the transition is attached after (or inside) the loop that appends the footnotes, so it does not precede them")
         if problems:
-            rep.violation("C11.R4", key, fi.module.site(trans_ctor[0]), "; ".join(dict.fromkeys(problems)))
+            rep.violation("C11.R4", key, tsites[0][0].module.site(tsites[0][1]), "; ".join(dict.fromkeys(problems)))
         else:
-            rep.ok("C11.R4", key, fi.module.site(trans_ctor[0]))
+            rep.ok("C11.R4", key, tsites[0][0].module.site(tsites[0][1]))
 
     # (f) nothing happens with sorting off: every Return before the loop is guarded by `not sort` only
     for r in [n for n in fi.local_nodes() if isinstance(n, ast.Return)]:
@@ -1452,6 +1586,12 @@ def _key_function(fi: FunctionInfo, key_expr: ast.expr) -> FunctionInfo:
             return kf
     if isinstance(key_expr, ast.Lambda) and hasattr(key_expr, "_fi"):
         return key_expr._fi
+    if isinstance(key_expr, ast.Attribute) and _is_name(key_expr.value, "self"):
+        owner = fi
+        while owner.parent_func is not None:
+            owner = owner.parent_func
+        if owner.cls is not None and key_expr.attr in owner.cls.methods:
+            return owner.cls.methods[key_expr.attr]
     raise Unsupported(f"{fi.module.site(key_expr)}: sort key `{short(key_expr, 40)}` is not a local function or lambda")
 
 
@@ -1480,9 +1620,10 @@ def r8_total_order_key(corpus: Corpus, rep: Report, tier: str):
     _, pred, _, _ = _classifier(corpus.func(DEF_FN))
     sites = []
     cf = corpus.func(f"{TRANS}:CollectFootnotes.apply")
-    loop, _, _ = _collector_parts(cf)
-    if isinstance(loop.iter, ast.Call) and kwarg(loop.iter, "key") is not None:
-        sites.append((cf, kwarg(loop.iter, "key")))
+    it_ = _collector_parts(cf).iter
+    it_ = _deref(cf, it_) if isinstance(it_, ast.Name) else it_
+    if isinstance(it_, ast.Call) and kwarg(it_, "key") is not None:
+        sites.append((cf, kwarg(it_, "key")))
     sf = corpus.func(f"{TRANS}:SortFootnotes.apply")
     for _sn, kexpr_, _v in _sorter_model(sf):
         if kexpr_ is not None:
@@ -1522,20 +1663,50 @@ def r8_total_order_key(corpus: Corpus, rep: Report, tier: str):
 # R9 - the footnote transition is placed where docutils allows one
 
 
+def _tests_transition(fi: FunctionInfo, n: ast.AST) -> bool:
+    """``isinstance(x, nodes.transition)`` or a comparison with the tag name 'transition'"""
+    if isinstance(n, ast.Call) and dotted(n.func) == "isinstance" and len(n.args) == 2:
+        return any(fi.module.resolve(dotted(x) or "") == "docutils.nodes.transition" for x in ast.walk(n.args[1]) if isinstance(x, (ast.Name, ast.Attribute)))
+    if isinstance(n, ast.Compare):
+        return any(isinstance(c, ast.Constant) and c.value == "transition" for c in [n.left, *n.comparators])
+    return False
+
+
 @rule("C11.R9")
 def r9_transition_placement(corpus: Corpus, rep: Report, tier: str):
     _use(corpus)
     rep.rule("C11.R9", "the footnote transition is attached only after inspecting the document's existing children: not first, not next to another transition")
     fi = corpus.func(f"{TRANS}:CollectFootnotes.apply")
     cfg = get_cfg(fi)
-    ctors = [n for n in fi.local_nodes() if isinstance(n, ast.Call) and fi.module.resolve(dotted(n.func) or "") == "docutils.nodes.transition"]
-    if not ctors:
+    tsites = _transition_sites(fi)
+    if not tsites:
         rep.listed("C11.R9", f"{fi.fq}|no transition built", fi.site())
         return
-    st = cfg.stmt_of(ctors[0])
-    guards = cfg.guards(st)
-    inspects_children = [t for t, pol in guards if any(_is_document(x) and not (isinstance(parent(x), ast.Attribute) and parent(x).attr in ("settings", "reporter")) for x in ast.walk(t))]
-    site = fi.module.site(st)
+    tfi, tctor, outer = tsites[0]
+    st = get_cfg(tfi).stmt_of(tctor)
+    guards = [(fi, t) for t, _pol in cfg.guards(outer)]
+    if tfi is not fi:
+        guards += [(tfi, t) for t, _pol in get_cfg(tfi).guards(st)]
+
+    def looks_at_document(f: FunctionInfo, t: ast.expr) -> bool:
+        roots: list[ast.AST] = []
+        for x in ast.walk(t):
+            if isinstance(x, ast.Name):
+                roots.append(_deref(f, x))
+        roots.append(t)
+        for r in list(roots):
+            for x in ast.walk(r):
+                if isinstance(x, ast.Call):
+                    h = _resolve_helper(f, x) if (isinstance(x.func, ast.Name) or (isinstance(x.func, ast.Attribute) and _is_name(x.func.value, "self"))) else None
+                    if h is not None and not h.is_lambda:
+                        roots.append(h.node)
+        sees_doc = any(_is_document(x) and not (isinstance(parent(x), ast.Attribute) and parent(x).attr in ("settings", "reporter")) for r in roots for x in ast.walk(r))
+        # a condition about an existing transition serves the other obligation (adjacency), not this one
+        about_transition = any(_tests_transition(f, x) for r in roots for x in ast.walk(r))
+        return sees_doc and not about_transition
+
+    inspects_children = [t for f, t in guards if looks_at_document(f, t)]
+    site = tfi.module.site(st)
     key = f"{fi.fq}|footnote transition|not the first element of the document"
     if inspects_children:
         rep.ok("C11.R9", key, site, short(inspects_children[0], 70))
@@ -1544,17 +1715,18 @@ def r9_transition_placement(corpus: Corpus, rep: Report, tier: str):
     # any test against the transition class / tag name in the function (guard or clean-up of a trailing transition)
     tests = []
     scope = list(fi.local_nodes())
-    for n in fi.local_nodes():
-        if isinstance(n, ast.Call):
-            d = dotted(n.func) or ""
-            helper = fi.module.functions.get(d) or fi.module.functions.get(f"{fi.qualname}.{d}") or (fi.module.functions.get(f"{fi.qualname.rsplit('.', 1)[0]}.{d[5:]}") if d.startswith("self.") else None)
-            if helper is not None and not helper.is_lambda:
-                scope += list(helper.local_nodes())
+    level, seen_h = [fi], {fi.fq}
+    for _depth in range(2):
+        nxt = []
+        for f in level:
+            for _call, h in _helper_calls(f):
+                if h.fq not in seen_h:
+                    seen_h.add(h.fq)
+                    nxt.append(h)
+                    scope += list(h.local_nodes())
+        level = nxt
     for n in scope:
-        if isinstance(n, ast.Call) and dotted(n.func) == "isinstance" and len(n.args) == 2:
-            if any(fi.module.resolve(dotted(x) or "") == "docutils.nodes.transition" for x in ast.walk(n.args[1]) if isinstance(x, (ast.Name, ast.Attribute))):
-                tests.append(n)
-        if isinstance(n, ast.Compare) and any(isinstance(c, ast.Constant) and c.value == "transition" for c in [n.left, *n.comparators]):
+        if _tests_transition(fi, n):
             tests.append(n)
     key = f"{fi.fq}|footnote transition|not adjacent to an existing transition"
     if tests:
@@ -1609,6 +1781,16 @@ def _occurrence_picked(kf: FunctionInfo, e: ast.expr) -> tuple[str, ast.AST]:
             if d is None:
                 raise Unsupported(f"{f.module.site(v)}: the label list is not built from document.autofootnote_refs")
             return ("first" if d == "fwd" else "last"), v
+        if isinstance(v, ast.List) and not v.elts:
+            name = e.func.value.id
+            apps = [n for n in f.local_nodes() if isinstance(n, ast.Call) and isinstance(n.func, ast.Attribute) and _is_name(n.func.value, name) and n.func.attr in ("append", "insert", "extend", "reverse", "sort")]
+            others = [n for n in apps if n.func.attr != "append"]
+            if len(apps) == 1 and not others and len(apps[0].args) == 1:
+                loop = next((a for a in ancestors(apps[0]) if isinstance(a, ast.For)), None)
+                if loop is not None and isinstance(loop.target, ast.Name) and _is_refname_of(apps[0].args[0], loop.target.id):
+                    d = _refs_in_document_order(f, loop.iter)
+                    if d is not None:
+                        return ("first" if d == "fwd" else "last"), loop
         raise Unsupported(f"{f.module.site(v)}: label list `{short(v, 50)}` not understood")
     # D[x] / D.get(x, default): whatever the dict construction kept for a repeated key
     cont = None
@@ -1779,6 +1961,32 @@ def mutants(corpus: Corpus):
         add("c11-def-name-normalised", "C11.R2", base, st.value.args[0], f"{unparse(st.value.args[0])}.lower()", "names")
     st = find_stmt(ref, lambda n: isinstance(n, ast.AugAssign) and "Text" in unparse(n.value))
     add("c11-ref-manual-text-dropped", "C11.R2", base, st, "pass", "Text(label)")
+    # defects hidden behind an extracted helper (the rules follow value-only predicate helpers and helpers that receive the node)
+    rcall = parent(rif) if rif is not None else None
+    if isinstance(rcall, ast.Call):
+        add("c11-ref-predicate-differs-in-helper", "C11.R2", base, rcall, f"_is_manual_label({unparse(rif.value)})", "manual/auto predicate")
+        if isinstance(out[-1], Mutant):
+            out[-1].new_src += f"\n\ndef _is_manual_label(label: str) -> bool:\n    return label.{other}()\n"
+    s_ref = find_stmt(ref, lambda n: isinstance(n, ast.Assign) and "'refname'" in unparse(n.targets[0]))
+    s_note = find_stmt(ref, lambda n: isinstance(n, ast.Expr) and "note_footnote_ref" in unparse(n))
+    if s_ref is not None and s_note is not None and s_ref.lineno < s_note.lineno:
+        rv = unparse(s_ref.targets[0].value)
+        src = splice(base.src, s_note, f"self._register_footnote_ref({rv}, {unparse(s_ref.value)})")
+        src = splice(src, s_ref, "pass")
+        helper = f"    def _register_footnote_ref(self, ref, name):\n        self.document.note_footnote_ref(ref)\n        ref[\"refname\"] = name\n\n"
+        lines = src.splitlines(keepends=True)
+        at = ref.node.lineno - 1 - len(ref.node.decorator_list)
+        out.append(Mutant("c11-ref-registered-before-named-in-helper", "C11.R2", base.rel, "".join(lines[:at]) + helper + "".join(lines[at:]), expect="refname stored before note_footnote_ref"))
+    else:
+        out.append(("c11-ref-registered-before-named-in-helper", "refname store / note_footnote_ref not found in this order"))
+    dupif = find_node(dfn, lambda n: isinstance(n, ast.If) and any(isinstance(x, ast.Compare) and isinstance(x.ops[0], (ast.In, ast.NotIn)) for x in ast.walk(n.test)))
+    if dupif is not None:
+        lab_ = next((unparse(x.left) for x in ast.walk(dupif.test) if isinstance(x, ast.Compare) and isinstance(x.ops[0], ast.In)), "target")
+        src = splice(base.src, dupif.test, f"self._has_footnote_definition({lab_})")
+        helper = "    def _has_footnote_definition(self, label):\n        return label in self.document.nameids\n\n"
+        lines = src.splitlines(keepends=True)
+        at = dfn.node.lineno - 1
+        out.append(Mutant("c11-duplicate-helper-consults-nameids", "C11.R6", base.rel, "".join(lines[:at]) + helper + "".join(lines[at:]), expect="against document.nameids"))
     # ---- R3
     dup = find_node(dfn, lambda n: isinstance(n, ast.If) and any(isinstance(x, ast.Compare) and isinstance(x.ops[0], (ast.In, ast.NotIn)) for x in ast.walk(n.test)))
     if dup is not None:
